@@ -118,22 +118,26 @@ class Lab:
         return res
 
 
-def classify(site, detail):
+def classify(site, detail, ws_prefix=None):
     if site == "file.persist":
         if "/op_store/operations/" in detail:
             return {"e": "op", "id": os.path.basename(detail)[:16]}
         if "/op_store/views/" in detail:
             return {"e": "view", "id": os.path.basename(detail)[:16]}
-        if detail.endswith("/working_copy/tree_state"):
-            return {"e": "treestate", "id": ""}
-        if detail.endswith("/working_copy/checkout"):
-            return {"e": "checkout", "id": ""}
+        if detail.endswith("/working_copy/tree_state") or detail.endswith("/working_copy/checkout"):
+            if ws_prefix and not detail.startswith(ws_prefix):
+                return {"e": "other", "id": ""}
+            return {"e": "treestate" if detail.endswith("tree_state") else "checkout", "id": ""}
         return {"e": "other", "id": ""}
     if site == "opheads.add":
         return {"e": "headadd", "id": detail[:16]}
     if site == "opheads.remove":
         return {"e": "headrm", "id": detail[:16]}
     if site in ("wc.write", "wc.remove"):
+        # files of ANOTHER workspace (e.g. the one `jj workspace add` is creating) are not the
+        # observed working copy: no claim about them
+        if ws_prefix and not detail.startswith(ws_prefix):
+            return {"e": "other", "id": ""}
         return {"e": "wctouch", "id": ""}
     return {"e": "noop", "id": ""}
 
@@ -238,7 +242,7 @@ def run_scenario(ctx, lab, name, prep, cmd, rng, max_kills):
         raise vf.ToolError("fsck failed: " + err[-500:])
     viewof = sorted([o[:16], v[:16]] for o, v in json.loads(out)["view_of"].items())
     shutil.rmtree(full)
-    effs = [classify(s, d) for _, s, d in points]
+    effs = [classify(s, d, os.path.join(full, "ws") + os.sep) for _, s, d in points]
     K = len(points)
     important = [i for i in range(K) if effs[i]["e"] not in ("other", "noop")]
     rest = [i for i in range(K) if effs[i]["e"] in ("other", "noop")]
